@@ -163,6 +163,9 @@ impl C12 {
         for k in 0..gen_n {
             docs.push(pool.generated(&Family::Rich, k));
         }
+        for k in 0..(if tier == Tier::Quick { 4 } else { 16 }) {
+            docs.push(pool.generated(&Family::RichEncrypted, k));
+        }
         docs.push(pool.generated(&Family::TwoLeaf, 0));
         for k in 0..4 {
             docs.push(pool.generated(&Family::DeepTree, k));
